@@ -232,6 +232,15 @@ func c14Exec(r *vf.Run, k c14Case) []finding {
 			break
 		}
 		ok := authErr == nil
+		if ok && trace.Accepted && right && len(k0.Rounds) > 0 {
+			r.Outcome(fmt.Sprintf("reached/history-exchange-%d-accepted", round+1))
+		}
+		if ok && trace.Accepted && right && k.Redial && round == 1 {
+			r.Outcome("reached/redial-accepted")
+		}
+		if ok && trace.Accepted && right && strings.Contains(k.User+k.Pass, "%") {
+			r.Outcome("reached/percent-credentials-accepted/" + k.Mech)
+		}
 		if ok && trace.Accepted && right {
 			if k.TLSVer != 0 {
 				r.Outcome(fmt.Sprintf("accepted/%s/tls1.%d", k.Mech, k.TLSVer-10))
@@ -473,6 +482,8 @@ func init() {
 					})
 				}
 			})
+			r.Reached("reached/history-exchange-1-accepted", "reached/history-exchange-2-accepted", "reached/redial-accepted", "reached/percent-credentials-accepted/CRAM-MD5", "reached/percent-credentials-accepted/PLAIN",
+				"reached/percent-credentials-accepted/SCRAM-SHA-256", "accepted/SCRAM-SHA-256-PLUS/tls1.2", "accepted/SCRAM-SHA-256-PLUS/tls1.3", "accepted/XOAUTH2", "accepted/LOGIN")
 		},
 		Replay: func(r *vf.Run, kase json.RawMessage) {
 			var k c14Case
